@@ -11,7 +11,7 @@ so that the divergence crosses the critical value repeatedly in both directions.
 import numpy as np
 
 from sim import workload
-from sim.core import EndRun, close, np_seed
+from sim.core import EndRun, approx_same, close, np_seed
 from sim.models import kdq as K
 from sim.seams import record_np_random
 
@@ -212,6 +212,22 @@ def run_batch(case, ctx, log, km):
                               f"call {i}: leaf divergence {div!r} vs critical value {crit!r} (alpha={cfg['alpha']}): expected drift={exp}, detector reports "
                               f"{det.drift_state!r}; {len(ref)} reference rows, {len(X)} test rows, {len(leaves)} leaves")
                 raise EndRun()
+        if i % 3 == 0 and hasattr(det, "to_plotly_dataframe"):
+            # the public node table: total counts per tree, and the same table when column labels are supplied for the node names
+            cols = [f"col{j}" for j in range(X.shape[1])]
+            d0 = ctx.call("C09:batch:to_plotly_dataframe", det.to_plotly_dataframe, "build", "test")
+            d1 = ctx.call("C09:batch:to_plotly_dataframe", det.to_plotly_dataframe, "build", "test", None, cols)
+            num = [c for c in ("idx", "parent_idx", "cell_count", "depth", "count_diff", "kss") if c in d0.columns]
+            same = list(d0.columns) == list(d1.columns) and len(d0) == len(d1) and all(
+                approx_same(d0[c].tolist(), d1[c].tolist()) for c in num)
+            rootrow = d0[d0["depth"] == 0]
+            if not same or len(rootrow) != 1 or int(rootrow["cell_count"].iloc[0]) != len(ref) or \
+                    int(rootrow["cell_count"].iloc[0] + rootrow["count_diff"].iloc[0]) != len(X):
+                ctx.violation("plotly", "C09:batch:plotly_table",
+                              f"call {i}: to_plotly_dataframe('build','test') root row {rootrow.to_dict('records')} for {len(ref)} reference / {len(X)} test rows; "
+                              f"same numbers with input_cols: {same}")
+                raise EndRun()
+            ctx.probe("node_table_with_input_cols")
         if got:
             drifts += 1
             pending = X
